@@ -215,6 +215,17 @@ func c04Run(c *Ctx) {
 						allCalls(g.build(), g)
 					}
 				}
+				// every spelling of the references (cycle detection compares canonical forms)
+				for sp := 1; sp < nSpellings; sp++ {
+					g := base.clone()
+					for k := range g.Edges {
+						g.Edges[k].Spell = sp
+					}
+					g.EntrySpell = sp
+					if mine(fmt.Sprint("s", nn, mask, pp, sp)) {
+						allCalls(g.build(), g)
+					}
+				}
 				// ids on each node
 				for node := 0; node < nn; node++ {
 					for _, id := range ids[1:] {
